@@ -50,6 +50,18 @@ def strategy(tier):
     return _cases(tier)
 
 
+def directed_cases(tier):
+    """Start indices above 2^53 a few samples around a whole second (the embedded start timestamp must be exact)."""
+    out = []
+    for n, t in ((25000000, 1700000001), (10000000, 1800000000), (100000000, 2000000003)):
+        for delta in (3, 2, 1, 0, -1):
+            cfg = {"kind": "i", "size": 2, "order": "<", "cplx": 0, "form": "struct", "nsub": 1, "n": n, "d": 1, "F": 1, "S": 1,
+                   "cont": 0, "comp": 0, "checksum": 0, "salt": 3, "uuid": "verif", "start": t * n - delta}
+            out.append({"cfg": cfg, "ops": [{"op": "w", "idx": 0, "len": 7}], "reads": [[t * n - 5, t * n + 5]],
+                        "path": "py" if delta % 2 else "c"})
+    return out
+
+
 def expected_attrs(cfg):
     return {
         "H5Tget_class": 1 if cfg["kind"] == "f" else 0,
